@@ -10,7 +10,7 @@ PROP = dict(
     # is what the analysis computes; a difference means the model is no longer the code.  A failing *input* of
     # the property is an accepted program on which compile_bytecode panics: reported through spec_fail.
     mismatch_is_violation=False,
-    rule="capture-position family (harness/src/bg9cov.rs, 171 programs): an outer variable whose ONLY use inside a lambda sits at one given sub-expression position - condition / then / else of if, both operands of or/and and of every binary operator at every type, unary minus and not, match scrutinee and tuple scrutinee, call / method / function-value arguments in every position, constructor components, index and array of reads, array / index / right-hand side of `a[i] = e` and `a[i] op= e` on arrays and user Index, object / right-hand side of field assignments, let / assignment / compound right-hand sides, push argument, inner loop iterable, an operand next to an inner loop, an operand next to a nested lambda call - directly in a lambda, in a lambda nested in a lambda, and in a lambda inside a function: must compile and print the value of the Rust oracle; coverage-guided families (harness/src/bg9cov.rs, Rust oracles; accepted => compiles AND prints the expected output, checker/compiler panics are failing inputs): 24 programs with compound assignment through a user `Index` implementation (g[(r,c)] op= k, g[ix()] op= rhs(), mk()[ix()] op= rhs(), also as a statement of a block operand; all five operators; oracle: effect order container, index, index_get, right-hand side, index_set and the final cells); `channel`, intrinsic names (at int / string / void element types: D88, channel intrinsics on channel<void>: D89) and namespace-qualified functions / constructors (D79) as first-class values; size limits: frames of 16383 / 16385 / 32767 locals compile and run (D90), 32768 is the diagnostic `too many local variables: 32768, the limit is 32767` at a real line (D93), 300 captures / tuple elements / struct fields / variant fields (thorough: 32767 and 32768 parameters, 3000 captures, 5000-wide tuple/struct/variant, a 70000-element array literal); implement-for-function-type in every call form (D99), unary minus on a user Num (D86: diagnostic), payload variant without arguments (D87: diagnostic), `fs[1](4)` (D91), match on a diverging scrutinee (D83), duplicate parameter names (D82: diagnostic), for loop in a default value (D84), default values that declare variables (D81), variant field defaults (D80); 96 loop-head programs: break/continue in a while condition (as block, if, match), in a for iterable and in the bodies, for the outermost and for a nested loop, at top level and inside a function, a lambda and a task: checker verdict must be accept=>compiles or a diagnostic, and equals the checker model (`loopctx` requests); 48 programs assigning (= and every compound form) to a PARAMETER: of the enclosing function / lambda from a nested lambda or task, written-only and also read (must be rejected with the captured-variable diagnostic and equal the checker model), and to the function's / lambda's own parameter as control (accepted, compiles, right value); 24 programs assigning a captured variable (lambda/task/inner lambda/function-local x six operators) that must be rejected with a diagnostic; 10 hand-written nesting programs (task in fn, lambda in lambda, task in lambda in fn, lambda in task, loop in lambda "
+    rule="capture-position family (harness/src/bg9cov.rs, 171 programs): an outer variable whose ONLY use inside a lambda sits at one given sub-expression position - condition / then / else of if, both operands of or/and and of every binary operator at every type, unary minus and not, match scrutinee and tuple scrutinee, call / method / function-value arguments in every position, constructor components, index and array of reads, array / index / right-hand side of `a[i] = e` and `a[i] op= e` on arrays and user Index, object / right-hand side of field assignments, let / assignment / compound right-hand sides, push argument, inner loop iterable, an operand next to an inner loop, an operand next to a nested lambda call - directly in a lambda, in a lambda nested in a lambda, and in a lambda inside a function: must compile and print the value of the Rust oracle; coverage-guided families (harness/src/bg9cov.rs, Rust oracles; accepted => compiles AND prints the expected output, checker/compiler panics are failing inputs): 24 programs with compound assignment through a user `Index` implementation (D79) (g[(r,c)] op= k, g[ix()] op= rhs(), mk()[ix()] op= rhs(), also as a statement of a block operand; all five operators; oracle: effect order container, index, index_get, right-hand side, index_set and the final cells); `channel`, intrinsic names (at int / string / void element types: D88, channel intrinsics on channel<void>: D89) and namespace-qualified functions / constructors (D82, D81) as first-class values; size limits: frames of 16383 / 16385 / 32767 locals compile and run (D90), 32768 is the diagnostic `too many local variables: 32768, the limit is 32767` at a real line (D93), 300 captures / tuple elements / struct fields / variant fields (thorough: 32767 and 32768 parameters, 3000 captures, 5000-wide tuple/struct/variant, a 70000-element array literal); implement-for-function-type in every call form (D99), unary minus on a user Num (D86: diagnostic), payload variant without arguments (D87: diagnostic), `fs[1](4)` (D91), match on a diverging scrutinee (D77), duplicate parameter names (D76: diagnostic), for loop in a default value (D84), default values that declare variables (D80), variant field defaults (D83); 96 loop-head programs: break/continue in a while condition (as block, if, match), in a for iterable and in the bodies, for the outermost and for a nested loop, at top level and inside a function, a lambda and a task: checker verdict must be accept=>compiles or a diagnostic, and equals the checker model (`loopctx` requests); 48 programs assigning (= and every compound form) to a PARAMETER: of the enclosing function / lambda from a nested lambda or task, written-only and also read (must be rejected with the captured-variable diagnostic and equal the checker model), and to the function's / lambda's own parameter as control (accepted, compiles, right value); 24 programs assigning a captured variable (lambda/task/inner lambda/function-local x six operators) that must be rejected with a diagnostic; 10 hand-written nesting programs (task in fn, lambda in lambda, task in lambda in fn, lambda in task, loop in lambda "
          "in loop, every compound assignment form, let in match scrutinee / in assignment target, capture only in scrutinee / only "
          "as assignment target) and quick 6x90 / thorough 6x2500 generated programs: tiers F0-F3 plus two nesting streams "
          "(functions, lambdas nested to depth 3, tasks, while/for with break/continue, =, +=, -=, *=, /=, %= on variables, fields "
